@@ -772,6 +772,11 @@ func (x *Exec) lockAcquire(st *State, pc Term, pos string) {
 	if li == nil {
 		return
 	}
+	if rd := x.eng.cf.LockReaders[li.Struct+"."+li.Mutex]; rd != nil && (x.fc == nil || !rd[x.fc.Pkg+"#"+x.fc.Name]) {
+		// single-writer mutex: this function belongs to the writer thread, the other users only read: nothing changes at Lock
+		x.trusted["lockreaders "+li.Struct+"."+li.Mutex+": the functions under contract that write the fields it guards all run on ONE goroutine (the event thread; every write is proved to hold the mutex, the declared readers are proved not to write); for that thread Lock changes nothing"] = true
+		return
+	}
 	stt := pt.Elem().Underlying().(*types.Struct)
 	conc := x.ghostGet(st, "concurrent")
 	bv := x.val(base)
@@ -1302,10 +1307,14 @@ func (x *Exec) verify() {
 	x.vc.oblige(&Obligation{Name: x.fc.Name + ".cover", Kind: "cover", Goal: tTrue, PC: exitPC, Src: "return reachable under the precondition (vacuity guard)", Cover: true})
 }
 
-func trivialBlock(b *ssa.BasicBlock) bool {
+func (x *Exec) trivialBlock(b *ssa.BasicBlock) bool {
 	for _, in := range b.Instrs {
 		switch in.(type) {
-		case *ssa.RunDefers, *ssa.Return, *ssa.Jump, *ssa.DebugRef:
+		case *ssa.RunDefers:
+			if len(x.defers) > 0 {
+				return false // deferred calls with a modelled effect run here: the state before the block is not the state after it
+			}
+		case *ssa.Return, *ssa.Jump, *ssa.DebugRef:
 		default:
 			return false
 		}
@@ -1316,7 +1325,7 @@ func trivialBlock(b *ssa.BasicBlock) bool {
 // leafContexts: (path condition, state) pairs whose disjunction is the context (pc, st) at the end of block b,
 // obtained by un-merging joins of blocks that do nothing (weakest precondition distributes over the join).
 func (x *Exec) leafContexts(b *ssa.BasicBlock, pc Term, st *State, budget *int) []edgeState {
-	if !trivialBlock(b) || x.loops[b] != nil || b == x.fn.Blocks[0] {
+	if !x.trivialBlock(b) || x.loops[b] != nil || b == x.fn.Blocks[0] {
 		*budget--
 		return []edgeState{{cond: pc, st: st, blk: b.Index, hasBlk: true}}
 	}
@@ -1332,7 +1341,7 @@ func (x *Exec) leafContexts(b *ssa.BasicBlock, pc Term, st *State, budget *int) 
 			continue
 		}
 		n++
-		if _, isJump := p.Instrs[len(p.Instrs)-1].(*ssa.Jump); isJump && trivialBlock(p) {
+		if _, isJump := p.Instrs[len(p.Instrs)-1].(*ssa.Jump); isJump && x.trivialBlock(p) {
 			out = append(out, x.leafContexts(p, c, ps, budget)...)
 		} else {
 			*budget--
